@@ -8,7 +8,7 @@ MANIFEST = {
             "the requests sent, the xid every callback sees and the returned classes of the model of WithGlobalTx equal an "
             "independent reference semantics of the six propagation modes; C07_outer_intact: after any inner scope, under any "
             "coordinator behaviour, the enclosing scope's xid/role/name are those before it; C07_never_ends_joined; "
-            "C07_carrier_single / _wrapped / _roundtrip / _case_spellings for the grpc/gin/dubbo xid transport, over every value shape "
+            "C07_carrier_single / _wrapped / _roundtrip / _no_transaction / _case_spellings for the grpc/gin/dubbo xid transport, over every value shape "
             "(string, list of strings, other) and every set of headers the outgoing context already holds), proved for every code shape "
             "satisfying shape_ok and instantiated at the propagation switch, role switch and save/restore REGENERATED from "
             "pkg/tm/transaction_executor.go on every run; tied to the code by running the real tm.WithGlobalTx over "
@@ -64,7 +64,7 @@ def run(chk, cases_override=None):
     pr = vlib.proof_step(chk, PROP_FILE, REQUIRES)
     if cases_override is None:
         data, secs = vlib.run_harness("tmrun", chk.tmp("c07.json"), timeout=1500, suite="c07", tier=chk.tier, seed=chk.seed)
-        cases = data["cases"]
+        cases = [c for c in data["cases"] if not c.get("skipped")]
     else:
         cases, secs = cases_override, 0.0
     mism, failing = evaluate(chk, cases)
@@ -87,7 +87,8 @@ def run(chk, cases_override=None):
         "rule": "scope trees through the real tm.WithGlobalTx against a coordinator that always answers ok: all trees of depth <= 2 "
                 "with one child over 6 modes x {nil,err} x shared/fresh context x {no transaction, incoming xid}; quick: seeded "
                 "samples of the depth-2/width-2 and depth-3 chains, thorough: all of them; random trees up to depth 4, width 2, with "
-                "panicking callbacks and unknown propagation values; a smaller stream of trees under coordinator faults and "
+                "panicking callbacks (panic values of six dynamic types) and unknown propagation values; scopes whose callbacks call out "
+                "through the gRPC interceptor / dubbo filter on their own context with stale xid keys already in the outgoing headers; a smaller stream of trees under coordinator faults and "
                 "cancellation (tie + intactness only). non-trivial = nested (depth >= 2) and at least one request reached the "
                 "coordinator; distinct by case inputs",
         "traces_validated_against_impl": len(cases) - len(mism) + (carrier or {}).get("traces_validated_against_impl", 0),
